@@ -32,7 +32,17 @@ def parse_errors(stderr, path):
             continue
         pm = re.search(r"-->\s*%s:(\d+):(\d+)" % re.escape(path), b)
         line = int(pm.group(1)) if pm else 0
-        sec = [int(x) for x in re.findall(r"(?m)^\s*(\d+)\s*\|", b)]
+        # the failed clause spans from the primary line to the numbered line right above the `failed this ...` marker
+        sec = []
+        blines = b.splitlines()
+        last_num = 0
+        for bl in blines:
+            mnum = re.match(r"^\s*(\d+)\s*\|", bl)
+            if mnum:
+                last_num = int(mnum.group(1))
+            elif re.search(r"\^+.*failed this|\^+\s*$|_+\^", bl) and last_num >= line and line:
+                sec = list(range(line, last_num + 1))
+                break
         errs.append((msg, line, sec, b[:1500]))
     return errs
 
